@@ -35,6 +35,13 @@ CURATED = {
     "s17_child_wfc_inside": {"nodes": [{"k": "child", "body": [{"k": "wfc", "polls": 2}, {"k": "step", "fail": 1, "max": 2}]}]},
     "s18_wfcb_retry_submit": {"nodes": [{"k": "wfcb", "fail": 1, "max": 2}, {"k": "step"}]},
     "s19_wfcfail_then_wait": {"nodes": [{"k": "wfc", "polls": 2, "fail_at": 1, "caught": True}, {"k": "wait"}, {"k": "step"}]},
+    "s21_step_then_amo": {"nodes": [{"k": "step"}, {"k": "step", "sem": "AMO", "fail": 1, "max": 2}, {"k": "step"}]},
+    "s22_slow_steps": {"nodes": [{"k": "step", "dur": 0.3}, {"k": "step", "dur": 0.25, "sem": "AMO"}, {"k": "wfc", "polls": 1}]},
+    "s23_slow_caught": {"nodes": [{"k": "step", "dur": 0.3, "caught": True}, {"k": "step", "dur": 0.25, "caught": True},
+                                  {"k": "child", "caught": True, "body": [{"k": "step", "dur": 0.3}]}]},
+    "s24_blanket_except": {"nodes": [{"k": "step", "dur": 0.3, "caught": "all"}, {"k": "step", "dur": 0.25, "caught": "all"},
+                                     {"k": "child", "caught": "all", "body": [{"k": "step", "dur": 0.3}]},
+                                     {"k": "wfc", "polls": 1, "caught": "all"}]},
     "s20_handler_raises": {"nodes": [{"k": "step"}, {"k": "wait"}], "final_raise": True},
 }
 
@@ -112,6 +119,8 @@ def gen_program(rng: random.Random, max_nodes=5, depth=2, kinds=None):
                 n["caught"] = True
             if rng.random() < 0.4:
                 n["val"] = rng.randrange(10)
+            if rng.random() < 0.3:
+                n["dur"] = rng.choice([0.05, 0.25, 0.3, 1.2])     # the user function takes virtual time (batch window is 1 s)
             return n
         if k == "wait":
             return {"k": "wait", "s": rng.choice([1, 2])}
@@ -191,6 +200,7 @@ def gen_scenario(rng: random.Random, prog, *, crash=0.5, faults=0.0, paging=0.5,
             ext[p] = [rng.choice(outs), "boom-" + p]
     if ext:
         sc["ext"] = ext
+    sc["api_latency"] = rng.choice([0.0, 0.0, 0.05, 0.3])
     sc["ext_order"] = rng.choice(["random", "timers_first", "ext_first"])
     sc["max_inv"] = 14
     return sc
